@@ -714,6 +714,8 @@ def build_unit(name, repo, template_path, overlay_path, twin_false=False, varian
             raise Unsupported('include depth')
         for ln in lines:
             st = ln.strip()
+            if st.startswith('//@variants '):
+                continue
             if st.startswith('//@include '):
                 p = os.path.join(VERIF, st.split(None, 1)[1].strip())
                 with open(p, encoding='utf-8') as f:
@@ -934,6 +936,10 @@ if __name__ == '__main__':
     ap.add_argument('--variant', action='append', default=[])
     a = ap.parse_args()
     try:
+        with open(os.path.join(VERIF, 'units', a.unit + '.rs.in'), encoding='utf-8') as f0:
+            l0 = f0.readline().strip()
+        if l0.startswith('//@variants '):
+            a.variant += l0.split()[1:]
         u = build_unit(a.unit + ('_twin' if a.twin else ''), a.repo,
                        os.path.join(VERIF, 'units', a.unit + '.rs.in'),
                        os.path.join(VERIF, 'specs', a.unit + '.spec'), twin_false=a.twin,
